@@ -6,6 +6,7 @@ Require Import Lia.
 Lemma src_register_before : register_before_imports = true. Proof. reflexivity. Qed.
 Lemma src_cleanup_outer : cleanup_construction_failure = true. Proof. reflexivity. Qed.
 Lemma src_cleanup_inner : cleanup_resolution_failure = true. Proof. reflexivity. Qed.
+Lemma src_mp_on_cached : model_processors_on_cached = false. Proof. reflexivity. Qed.
 Lemma src_cleanup_mp : cleanup_model_processor_failure = true. Proof. reflexivity. Qed.
 Lemma src_lookup_order : lookup_order = [SOwn; SLocal; SBuiltin]. Proof. reflexivity. Qed.
 
@@ -171,11 +172,11 @@ Qed.
 
 
 Lemma cached_load_returns_cached fs c f s m :
-  cglobal c = true -> dget f (allm s) = Some m -> flag_of fmp m s = false ->
+  cglobal c = true -> dget f (allm s) = Some m ->
   fst (load_main fs c f s) = inr m /\ reads (snd (load_main fs c f s)) = [] /\ allm (snd (load_main fs c f s)) = allm s.
 Proof.
-  intros Hg Hc Hmp. unfold load_main, begin_op. rewrite Hg. cbn [allm with_reads].
-  rewrite Hc. unfold flag_of, cont_of in *. cbn [heap with_reads] in *. rewrite Hmp. cbn. auto.
+  intros Hg Hc. unfold load_main, begin_op. rewrite Hg. cbn [allm with_reads].
+  rewrite Hc, src_mp_on_cached. cbn. auto.
 Qed.
 
 (* ================================================================== 1. fuel bound and "each file is read once" *)
@@ -414,7 +415,7 @@ Proof.
   set (s0 := begin_op c s) in *.
   assert (Hr0 : reads s0 = []) by reflexivity.
   destruct (if cglobal c then dget f (allm s0) else None) as [m|] eqn:Ec.
-  { destruct (flag_of fmp m s0); cbn [fst snd]; rewrite Hr0; split; try discriminate; constructor. }
+  { destruct (model_processors_on_cached && flag_of fmp m s0)%bool; cbn [fst snd]; rewrite Hr0; split; try discriminate; constructor. }
   assert (Hf : ~ In f (keys s0)).
   { destruct (cglobal c) eqn:Eg; [apply dget_None_notin; exact Ec|]. subst s0. unfold begin_op. rewrite Eg. cbn. tauto. }
   destruct (load_file_once fs c (S (length fs)) true f s0 HK Hf ltac:(lia)
@@ -1040,7 +1041,7 @@ Proof.
   assert (El0 : forall x, local_of x s0 = local_of x s) by (intro x; subst s0; unfold begin_op; destruct (cglobal c); reflexivity).
   set (n0 := length (heap s0)) in *.
   destruct (if cglobal c then dget f (allm s0) else None) as [m|] eqn:Ec.
-  { destruct (flag_of fmp m s0); intro H; inversion H; subst.
+  { destruct (model_processors_on_cached && flag_of fmp m s0)%bool; intro H; inversion H; subst.
     split; [reflexivity|]. split; [intros; apply El0 | exact HS0]. }
   assert (Hg : dget f (allm s0) = None).
   { destruct (cglobal c) eqn:Eg; [exact Ec|]. subst s0. unfold begin_op. rewrite Eg. reflexivity. }
@@ -1095,7 +1096,7 @@ Proof.
     pose proof (Stable_begin_op c s HS) as HS0. fold s0 in HS0.
     destruct (Stable_Inv s0 HS0) as [HI0 Hold0].
     destruct (if cglobal c then dget f (allm s0) else None) as [m0|] eqn:Ec.
-    { destruct (flag_of fmp m0 s0); intro H; inversion H; subst. exact HS0. }
+    { destruct (model_processors_on_cached && flag_of fmp m0 s0)%bool; intro H; inversion H; subst. exact HS0. }
     assert (Hg : dget f (allm s0) = None).
     { destruct (cglobal c) eqn:Eg; [exact Ec|]. subst s0. unfold begin_op. rewrite Eg. reflexivity. }
     destruct (load_file_cl fs c (length (heap s0)) (S (length fs)) true f s0 HI0 Hg) as [Hst [Hok _]].
@@ -1186,11 +1187,11 @@ Qed.
 
 Theorem after_failure_cache_serves fs fs' c f s e s' k v :
   Stable s -> load_main fs c f s = (inl e, s') -> cglobal c = true ->
-  dget k (allm s) = Some v -> flag_of fmp v s' = false ->
+  dget k (allm s) = Some v ->
   fst (load_main fs' c k s') = inr v /\ reads (snd (load_main fs' c k s')) = [].
 Proof.
-  intros HS E Hg Hk Hf. destruct (failure_leaves_only_earlier_models fs c f s e s' HS E) as [_ Ha].
-  specialize (Ha Hg). destruct (cached_load_returns_cached fs' c k s' v Hg ltac:(rewrite Ha; exact Hk) Hf) as [A [B _]]. auto.
+  intros HS E Hg Hk. destruct (failure_leaves_only_earlier_models fs c f s e s' HS E) as [_ Ha].
+  specialize (Ha Hg). destruct (cached_load_returns_cached fs' c k s' v Hg ltac:(rewrite Ha; exact Hk)) as [A [B _]]. auto.
 Qed.
 
 (* ================================================================== 7. local models are the registered models (identity) *)
@@ -1355,7 +1356,7 @@ Proof.
   assert (HL0 : LocReg s0).
   { subst s0. unfold begin_op. destruct (cglobal c); [exact HL|]. intros x g t _ []. }
   destruct (if cglobal c then dget f (allm s0) else None) as [m0|] eqn:Ec.
-  { destruct (flag_of fmp m0 s0); intro H; inversion H; subst. intros x g t Hin Hx. apply (HL0 x g t Hin).
+  { destruct (model_processors_on_cached && flag_of fmp m0 s0)%bool; intro H; inversion H; subst. intros x g t Hin Hx. apply (HL0 x g t Hin).
     destruct Hx as [Hx | ->]; [exact Hx|]. destruct (cglobal c); [|discriminate]. apply dget_In in Ec.
     apply in_map_iff. exists (f, m). auto. }
   assert (Hg : dget f (allm s0) = None).
